@@ -143,6 +143,10 @@ def cases(max_m, seed=0, all_layouts=False, min_m=1):
                     variant = (sum(order[:2]) + li) % 6
                     yield ("macro", m, edges, order, lib, lib2), dict(m=m, edges=edges, order=order, lib=lib, lib2=lib2,
                                                                      variant=variant)
+                    if lib and lib2:
+                        # the same import chain with the middle file in another directory than the compiled file
+                        yield ("macro", m, edges, order, lib, lib2, "subdir"), dict(m=m, edges=edges, order=order, lib=lib, lib2=lib2,
+                                                                                   variant=variant, subdir=True)
 
 
 def build_files(spec, seed):
@@ -155,11 +159,12 @@ def build_files(spec, seed):
     in_lib2 = [macros[i] for i in order if i in lib2]
     files = {}
     imports_main = []
+    sub = "sub/" if spec.get("subdir") else ""
     if in_lib2:
-        files["deep/lib2.exps"] = A.Program([], in_lib2)
+        files[sub + "deep/lib2.exps"] = A.Program([], in_lib2)
     if in_lib:
-        files["lib.exps"] = A.Program([], in_lib, imports=["./deep/lib2.exps"] if in_lib2 else [])
-        imports_main.append("./lib.exps")
+        files[sub + "lib.exps"] = A.Program([], in_lib, imports=["./deep/lib2.exps"] if in_lib2 else [])
+        imports_main.append("./" + sub + "lib.exps")
     elif in_lib2:
         imports_main.append("./deep/lib2.exps")
     main = A.Program([main_routine(m, edges, seed, spec["variant"])], in_main, imports=imports_main)
